@@ -93,6 +93,8 @@ impl Case {
 }
 
 pub struct RunOut {
+    /// A duplicate item in the snapshot, if any.
+    pub duplicate: Option<String>,
     pub snapshot: PayloadSnapshot,
     pub data: DataSet,
     pub metrics: Metrics,
@@ -109,7 +111,8 @@ pub fn run(
         .map_err(|e| format!("run failed (fatal={})", e.is_fatal()))?;
     let snapshot = report.into_snapshot(exceptions, &mut metrics);
     let data = DataSet::from_snapshot(&snapshot);
-    Ok(RunOut { snapshot, data, metrics })
+    let duplicate = DataSet::from_payload(snapshot.payload()).err();
+    Ok(RunOut { duplicate, snapshot, data, metrics })
 }
 
 fn copy_tree(src: &Path, dst: &Path) -> std::io::Result<()> {
